@@ -91,6 +91,58 @@ def close(a, b, rel=1e-9):
 GSC_KEY = "C16:gsc:identical-rows-split-by-zero-distance-ties"
 GSC_KEY2 = "C16:gsc:relisting-changes-weights-on-derived-distance-ties"
 
+def gsc_exact(d, n):
+    """GSC weights over exact fractions, written from the published algorithm + the C code's conventions (first minimum in
+    row-major order of the compacted matrix; joined rows moved to the end) — a second, independent reading of
+    esl_tree.c:cluster_engine / esl_msaweight_GSC besides the Lean model. d = full n x n distance matrix of Fractions."""
+    if n == 1: return [Fraction(1)]
+    D = [row[:] for row in d]
+    idx = [-i for i in range(n)]; nin = [1] * n
+    height = [Fraction(0)] * (n - 1); left = [0] * (n - 1); right = [0] * (n - 1)
+    ld = [Fraction(0)] * (n - 1); rd = [Fraction(0)] * (n - 1)
+    for N in range(n, 1, -1):
+        mn, i, j = D[0][1], 0, 1
+        for r in range(N):
+            for c in range(r + 1, N):
+                if D[r][c] < mn: mn, i, j = D[r][c], r, c
+        k = N - 2
+        left[k], right[k] = idx[i], idx[j]
+        height[k] = mn / 2
+        ld[k] = rd[k] = height[k]
+        if idx[i] > 0: ld[k] = max(Fraction(0), ld[k] - height[idx[i]])
+        if idx[j] > 0: rd[k] = max(Fraction(0), rd[k] - height[idx[j]])
+        def move(p, t):
+            if p == t: return
+            for r in range(N): D[r][t], D[r][p] = D[r][p], D[r][t]
+            D[t], D[p] = D[p], D[t]
+            idx[p], idx[t] = idx[t], idx[p]; nin[p], nin[t] = nin[t], nin[p]
+        move(j, N - 1); move(i, N - 2)
+        i, j = N - 2, N - 1
+        for c in range(N):
+            D[i][c] = (nin[i] * D[i][c] + nin[j] * D[j][c]) / (nin[i] + nin[j])
+            D[c][i] = D[i][c]
+        nin[i] += nin[j]; idx[i] = N - 2
+    cs = [0] * (n - 1); x = [Fraction(0)] * (n - 1)
+    for k in range(n - 2, -1, -1):
+        cs[k] = (1 if left[k] <= 0 else cs[left[k]]) + (1 if right[k] <= 0 else cs[right[k]])
+        x[k] = ld[k] + rd[k] + (x[left[k]] if left[k] > 0 else 0) + (x[right[k]] if right[k] > 0 else 0)
+    w = [Fraction(0)] * n
+    x[0] = Fraction(0)
+    for k in range(n - 1):
+        lw = ld[k] + (x[left[k]] if left[k] > 0 else 0)
+        rw = rd[k] + (x[right[k]] if right[k] > 0 else 0)
+        if lw + rw == 0:
+            lx = x[k] * Fraction(cs[left[k]], cs[k]) if left[k] > 0 else x[k] / cs[k]
+            rx = x[k] * Fraction(cs[right[k]], cs[k]) if right[k] > 0 else x[k] / cs[k]
+        else:
+            lx = x[k] * lw / (lw + rw); rx = x[k] * rw / (lw + rw)
+        if left[k] <= 0: w[-left[k]] = lx + ld[k]
+        else: x[left[k]] = lx + ld[k]
+        if right[k] <= 0: w[-right[k]] = rx + rd[k]
+        else: x[right[k]] = rx + rd[k]
+    S = sum(w)
+    return [Fraction(1)] * n if S == 0 else [v / S * n for v in w]
+
 def upgma_tie_free(d, n):
     """UPGMA over exact fractions (independent of the Lean model): True iff at every merge the minimum distance is
     attained by exactly one pair, i.e. the tree does not depend on how ties are broken"""
@@ -99,7 +151,7 @@ def upgma_tie_free(d, n):
     nxt = n
     while len(cl) > 1:
         m = min(D.values())
-        best = [k for k, v in D.items() if v == m]
+        best = [k for k, v in D.items() if v - m <= Fraction(1, 10**9)]     # "tie" includes near-ties that binary64 might not resolve
         if len(best) > 1: return False
         a, b = best[0]
         new = {}
@@ -156,6 +208,9 @@ class C16(Prop):
                     "Lean compiler/runtime for the executable driver; Float/Float32 = IEEE binary64/binary32 as in gcc -O1 -ffp-contract=off",
                     "python monitors (props/c16.py) as independent oracle on implementation output"]
     assumptions = ["theorems are over Q: float rounding of the final weights is not covered (L0)",
+                   "GSC with tied distances: the binary64 code can break a tie differently from exact arithmetic (two distances equal over Q "
+                   "need not round to the same double), so its tree, and its weights, may differ from the Q instance by more than rounding; "
+                   "the independent exact-fraction GSC oracle in the monitor is therefore applied only where no UPGMA step ties",
                    "GSC: equal weights for identical rows and equivariance under relisting are not theorems (false in general, see known findings); "
                    "no positive theorem for the tie-free case (monitor only)",
                    "not covered in the anchored files: esl_dst_*JukesCantor*, *PairMatch*, Average*/Connectivity, esl_tree.c beyond cluster_engine(UPGMA)/SetCladesizes, "
@@ -624,6 +679,17 @@ class C16(Prop):
                         e = Fraction(n, ncomp * comp.count(comp[i]))
                         if not close(wt[i], float(e)): return Failure("monitor", "BLOSUM weight %d is %r, expected N/(#clusters*size) = %r" % (i, wt[i], float(e)))
                         st["L0_max_abs_dev_blosum"] = max(st.get("L0_max_abs_dev_blosum", 0.0), abs(float(Fraction(wt[i]) - e)))
+                if w[0] == "gsc" and n <= 36:
+                    mx = aln.pairs()
+                    dm = [[(Fraction(1) - (Fraction(*mx[i][j]) if mx[i][j][1] else 0)) if i != j else Fraction(0) for j in range(n)] for i in range(n)]
+                    # with ties the binary64 code may break them differently from exact arithmetic (two distances equal
+                    # over Q need not round to the same double): the exact oracle applies where no step of UPGMA ties
+                    e = gsc_exact(dm, n) if upgma_tie_free(dm, n) else None
+                    if e is None: cnt("gsc-exact-oracle-skipped-ties")
+                    for i in range(n if e is not None else 0):
+                        if not close(wt[i], float(e[i])): return Failure("monitor", "GSC weight %d is %r, the tree-based rule over exact fractions gives %r" % (i, wt[i], float(e[i])))
+                        st["L0_max_abs_dev_gsc"] = max(st.get("L0_max_abs_dev_gsc", 0.0), abs(float(Fraction(wt[i]) - e[i])))
+                    if e is not None: cnt("gsc-exact-oracle")
                 if w[0] in ("pb", "pbadv"):
                     e = self._pb_expected(aln, kv if w[0] == "pbadv" else {}, f if w[0] == "pbadv" else None)
                     if isinstance(e, str): return Failure("monitor", e)
@@ -680,8 +746,8 @@ class C16(Prop):
         return [Fraction(1) - (Fraction(*mx[i][j]) if mx[i][j][1] else 0) for i in range(n) for j in range(i + 1, n)]
 
     def _tie_free(self, aln):
-        d = self._dists(aln)
-        return len(set(d)) == len(d)
+        d = sorted(self._dists(aln))
+        return all(b - a > Fraction(1, 10**9) for a, b in zip(d, d[1:]))
 
     def _gsc_zero_ties(self, aln):
         """identical rows may legitimately differ in GSC weight when a zero distance links rows that are not identical
